@@ -312,12 +312,17 @@ func TestVerifC11PxOptions(t *testing.T) {
 			return "Init failed: " + err.Error()
 		}
 		defer a.Close()
-		two := map[string]int{"url": 2, "ca": 2, "cert": 2, "timeout": 2, "fcodes": 2, "idle": 2}
+		two := map[string]int{"url": 2, "ca": 2, "cert": 2, "timeout": 1, "fcodes": 2, "idle": 2}
 		b, err := w.build("probe", 1, two, nil)
 		if err != nil {
 			return "Init failed: " + err.Error()
 		}
 		defer b.Close()
+		c, err := w.build("probe", 1, map[string]int{"url": 1, "ca": 1, "cert": 1, "timeout": 2, "fcodes": 1, "idle": 1}, nil)
+		if err != nil {
+			return "Init failed: " + err.Error()
+		}
+		defer c.Close()
 		if s := w.call(a, "base1", 1, 200, 0); s.result != "" || s.status != 200 || s.path != "/u1/x" || s.cn != "c1" {
 			return fmt.Sprintf("plain call on generation (all options v1): %+v", s)
 		}
@@ -336,7 +341,7 @@ func TestVerifC11PxOptions(t *testing.T) {
 		if s := w.call(a, "base6", 1, 200, holdFor); !s.pending || s.result != "" || s.status != 200 {
 			return fmt.Sprintf("held call on a generation with timeout 60s: %+v", s)
 		}
-		if s := w.call(b, "base7", 2, 200, 30*time.Second); s.pending || s.result != "timeout" {
+		if s := w.call(c, "base7", 1, 200, 30*time.Second); s.pending || s.result != "timeout" {
 			return fmt.Sprintf("held call on a generation with timeout 100ms: %+v", s)
 		}
 		return ""
